@@ -1,0 +1,20 @@
+//go:build verif
+
+// Contracts for the deductive checker in /verif (read only with -tags verif).
+
+package sm9
+
+//@ func unmarshalG1 property C13,C14
+//@   heapnonnil
+//@   modifies everything
+//@ func unmarshalG2 property C13,C14
+//@   heapnonnil
+//@   modifies everything
+
+// key unwrapping: the bn256 calls are not under contract (havocked); what callers rely on is the
+// length of the derived key
+//@ func (*EncryptPrivateKey).UnwrapKey property C13
+//@   requires priv != nil && 0 <= kLen && kLen <= 4294967000
+//@   ensures err == nil ==> len(key) == kLen
+//@   heapnonnil
+//@   modifies everything
